@@ -163,6 +163,11 @@ func checkSteps(got pipeline.Steps, entries []any, depth int, oc *outcome) error
 				if !ok || gt.Diff(canon.Value(e), canon.Value(c), gt.Opt{}) != "" {
 					return fmt.Errorf("step %d fell back to an unknown step but does not hold the input mapping verbatim", i)
 				}
+				// verbatim includes the shape: every mapping inside is still an order-preserving one, in the
+				// order written (a half-finished decode may have converted parts of the entry in place)
+				if where := orderLost(canon.Value(e), canon.Value(c), "$"); where != "" {
+					return fmt.Errorf("step %d fell back to an unknown step whose contents are not the input mapping verbatim: at %s a mapping lost its order-preserving form or its key order", i, where)
+				}
 				continue
 			}
 			if wantKind != "" && gotKind != wantKind {
@@ -191,6 +196,52 @@ func checkSteps(got pipeline.Steps, entries []any, depth int, oc *outcome) error
 		}
 	}
 	return nil
+}
+
+// orderLost walks two equal trees and reports the first mapping that is order-preserving in a but not
+// in b, or whose keys stand in another order.
+func orderLost(a, b *gt.Node, path string) string {
+	if a == nil || b == nil || a.Kind != b.Kind {
+		return ""
+	}
+	switch a.Kind {
+	case gt.Map:
+		if a.Ordered {
+			if !b.Ordered || len(a.Keys) != len(b.Keys) {
+				return path
+			}
+			for i := range a.Keys {
+				if a.Keys[i] != b.Keys[i] {
+					return path
+				}
+			}
+		}
+		for i, k := range a.Keys {
+			if j := indexOf(b.Keys, k); j >= 0 {
+				if w := orderLost(a.Vals[i], b.Vals[j], path+"."+k); w != "" {
+					return w
+				}
+			}
+		}
+	case gt.Seq:
+		for i := range a.Items {
+			if i < len(b.Items) {
+				if w := orderLost(a.Items[i], b.Items[i], fmt.Sprintf("%s[%d]", path, i)); w != "" {
+					return w
+				}
+			}
+		}
+	}
+	return ""
+}
+
+func indexOf(xs []string, x string) int {
+	for i, y := range xs {
+		if y == x {
+			return i
+		}
+	}
+	return -1
 }
 
 // consumed returns the keys of entry e that a step of this kind consumes into typed fields
